@@ -32,6 +32,7 @@ fn main() {
                 "lru" => seq::lru::replay(&behaviours, &mut out),
                 "kb" => seq::kb::replay(&behaviours, &mut out),
                 "query" => seq::query::replay(&behaviours, &mut out),
+                "filter" | "limiter" | "recv" => seq::filter::replay(&behaviours, &mut out),
                 "handler" => handler::run_behaviours(&behaviours, &mut out),
                 "svc" => svc::run_behaviours(&behaviours, &mut out),
                 "pcodec" => codec::packet::replay(&behaviours, &mut out),
@@ -49,6 +50,9 @@ fn main() {
                 "query" => seq::query::drive(seed, n, &mut out),
                 "pcodec" => codec::packet::drive(seed, n, &mut out),
                 "rcodec" => codec::rpc::drive(seed, n, &mut out),
+                "filter" => seq::filter::drive_filter(seed, n, &mut out),
+                "limiter" => seq::filter::drive_limiter(seed, n, &mut out),
+                "recv" => seq::filter::drive_recv(seed, n, &mut out),
                 _ => Err(format!("unknown component {comp}")),
             }
         }
